@@ -1292,3 +1292,46 @@ def decision_function(fn_body, result_wrappers=("Ok",)):
                 return r(v)
         return tail(v)
     return evaluate, sorted(atoms)
+
+
+# --------------------------------------------------------------------------------------------
+# Boolean accumulators: `let mut all_ok = true; for .. { all_ok &= p(x) }` computes a conjunction only if every update is monotone
+# --------------------------------------------------------------------------------------------
+
+def accumulator_census(syn, mod_prefixes):
+    """rows for every `let mut X = true|false` that is updated inside a loop of the same function:
+    dict(fn, name, init, updates=[(op, rhs src)], monotone: bool). An `all` accumulator (init true) may only be updated by `&=` or
+    `= false`; an `any` accumulator (init false) only by `|=` or `= true`. A plain `X = <expr>` in the loop makes the result depend
+    on the last element only."""
+    rows = []
+    for f in syn.fns:
+        if not any(f["mod"].startswith(m) for m in mod_prefixes) or not f.get("body") or f.get("derived") or "test" in f["mod"]:
+            continue
+        locals_ = {}
+        for n in walk(f["body"]):
+            if n.get("k") == "local" and n.get("init") is not None and strip(n["init"]).get("k") == "lit" and strip(n["init"]).get("t") == "bool" \
+                    and n["pat"].get("k") == "pident" and n["pat"].get("mut"):
+                locals_[n["pat"]["name"]] = bool(strip(n["init"])["v"])
+        if not locals_:
+            continue
+        loops = [n for n in walk(f["body"]) if n.get("k") in ("for", "while", "loop")]
+        for name, init in locals_.items():
+            ups = []
+            for lp in loops:
+                for n in walk(lp["body"]):
+                    if n.get("k") == "binary" and n["op"] in ("&=", "|=", "^=") and src(strip(n["l"])) == name:
+                        ups.append((n["op"], src(strip(n["r"]))[:60]))
+                    elif n.get("k") == "assign" and src(strip(n["l"])) == name:
+                        ups.append(("=", src(strip(n["r"]))[:60]))
+                    elif n.get("k") == "binary" and n["op"] == "=" and src(strip(n["l"])) == name:
+                        ups.append(("=", src(strip(n["r"]))[:60]))
+            if not ups:
+                continue
+            ok = True
+            for op, rhs in ups:
+                if init and not (op == "&=" or (op == "=" and rhs == "false")):
+                    ok = False
+                if not init and not (op == "|=" or (op == "=" and rhs == "true")):
+                    ok = False
+            rows.append({"fn": f, "name": name, "init": init, "updates": ups, "monotone": ok})
+    return rows
